@@ -71,6 +71,9 @@ type YN struct {
 
 // KeyText is the text a (scalar) key contributes to the JSON object name.
 func (n *YN) KeyText() string {
+	if n.Kind == YAlias {
+		return n.Target.KeyText()
+	}
 	if n.Val.K == ref.Str {
 		return n.Val.S
 	}
@@ -879,6 +882,61 @@ func C06AddAliases(r *rand.Rand, root *YN, merges bool) (int, int) {
 	return na, nm
 }
 
+// C06AddAliasKeys gives some later maps an extra entry whose KEY is an alias of an earlier, finished
+// scalar value (a single-line string or a decimal integer): `name: &n region` ... `{*n : 3}`.
+// Returns the number of alias keys added.
+func C06AddAliasKeys(r *rand.Rand, root *YN) int {
+	added := 0
+	for try := 0; try < 4; try++ {
+		sl := ySlots(root)
+		var srcs []ySlot
+		for _, s := range sl[1:] {
+			n := s.node
+			if n.Kind != YScalar || n.Header != "" || n.Lines != nil || n.Text == "" {
+				continue
+			}
+			if s.parent != nil && s.parent.Merge != nil {
+				continue
+			}
+			if n.Val.K == ref.Str || (n.Val.K == ref.Int && n.Spell == "dec") {
+				srcs = append(srcs, s)
+			}
+		}
+		if len(srcs) == 0 {
+			return added
+		}
+		t := srcs[r.IntN(len(srcs))]
+		var maps []ySlot
+		for _, m := range sl {
+			if m.start > t.end && m.node.Kind == YMap && m.node.Merge == nil {
+				dup := false
+				for _, k := range m.node.Keys {
+					if k.KeyText() == t.node.KeyText() {
+						dup = true
+					}
+				}
+				if !dup {
+					maps = append(maps, m)
+				}
+			}
+		}
+		if len(maps) == 0 {
+			continue
+		}
+		m := maps[r.IntN(len(maps))].node
+		if t.node.Anchor == "" {
+			t.node.Anchor = fmt.Sprintf("k%d", try+1)
+		}
+		ak := &YN{Kind: YAlias, Target: t.node, Val: t.node.Val, Text: t.node.Text, Spell: t.node.Spell}
+		pos := r.IntN(len(m.Keys) + 1)
+		val := &YN{Kind: YScalar, Val: ref.IntV(int64(added + 3)), Text: fmt.Sprint(added + 3), Spell: "dec"}
+		m.Keys = append(m.Keys[:pos:pos], append([]*YN{ak}, m.Keys[pos:]...)...)
+		m.Vals = append(m.Vals[:pos:pos], append([]*YN{val}, m.Vals[pos:]...)...)
+		added++
+	}
+	return added
+}
+
 // ---------------------------------------------------------------------------------------------
 // emitter
 
@@ -937,6 +995,9 @@ func (e *yEmit) inline(n *YN) (string, bool) {
 			sb.WriteString(", ")
 		}
 		ks, _ := e.inline(k)
+		if k.Kind == YAlias {
+			ks += " " // `*a : v`: a colon right after the name would be part of the name
+		}
 		vs, _ := e.inline(n.Vals[i])
 		if vs == "" {
 			vs = "null"
@@ -1029,6 +1090,9 @@ func (e *yEmit) mapEntries(n *YN, ind int, firstInline bool) {
 			e.pad(ind)
 		}
 		ks, _ := e.inline(k)
+		if k.Kind == YAlias {
+			ks += " "
+		}
 		e.sb.WriteString(ks + ":")
 		e.value(n.Vals[i], ind)
 	}
